@@ -53,7 +53,7 @@ def getitem_post(self, item, result):
 
 
 contract(IA + '.__setitem__', params=dict(self=Obj(IA), key=Union(Int, Tuple(Int, Int)), value=Real), modifies=['self'],
-         inline=True)
+         inline=True, writes=['self'])
 
 
 @requires(IA + '.__setitem__')
